@@ -147,24 +147,27 @@ func c16safemap(c *Ctx) {
 					continue
 				}
 				if st.Val.Strip(false).Kind == px.KMakeMap {
-					// the replaced generation must have been copied (range over it with stores into the other)
+					// the map that fname held must survive: handed to the other generation field, or
+					// ranged over and copied entry by entry into the other generation's map
 					copied := false
+					rangedOver := func(next *px.Sym) bool { // next: KNext sym
+						return next != nil && next.Kind == px.KNext && next.X != nil && next.X.Kind == px.KRange && px.IsFieldLoad(next.X.X, fname, nil)
+					}
 					for _, ev := range p.Events[:st.Seq] {
-						if ev.Kind == px.EvMapUpdate && genOf(ev.Addr) == other(fname) {
+						switch ev.Kind {
+						case px.EvStore:
+							if _, on, isF := ev.Addr.FieldAddrOf(); isF && on == other(fname) && px.IsFieldLoad(ev.Val, fname, nil) {
+								copied = true // pointer hand-off: other = this
+							}
+						case px.EvMapUpdate:
 							k := ev.Key.Strip(false)
-							if k.Kind == px.KExtract && k.X.Kind == px.KNext {
+							if genOf(ev.Addr) == other(fname) && k.Kind == px.KExtract && rangedOver(k.X) {
 								copied = true
 							}
-						}
-					}
-					// zero-entry source: no iteration — acceptable only if a Next was taken with ok=false
-					if !copied {
-						for _, ev := range p.Events[:st.Seq] {
-							if ev.Kind == px.EvBranch {
-								cn := ev.Cond.Strip(false)
-								if cn.Kind == px.KExtract && cn.Index == 0 && cn.X.Kind == px.KNext && !ev.Taken {
-									copied = true
-								}
+						case px.EvBranch:
+							cn := ev.Cond.Strip(false)
+							if cn.Kind == px.KExtract && cn.Index == 0 && rangedOver(cn.X) && !ev.Taken {
+								copied = true // the loop over fname ran to exhaustion (possibly zero entries)
 							}
 						}
 					}
